@@ -731,7 +731,7 @@ def _run(eng, contract, fn, res):
             raise Unsupported("generator function: the contract must declare the list type of the yielded values")
         empty = V(contract.returns, [z3.IntVal(0)] + [z3.K(Ty.IntS, fresh_default(srt)) for srt in contract.returns.e.sorts()])
         st.vars["__yields__"] = eng.alloc(st, empty)
-    st.old = (dict(st.vars), dict(st.heap))
+    st.old = (dict(st.vars), st.heap.plain())
     outs = eng.exec_block(st, fn.body)
     npaths = 0
     canary_states = []
